@@ -670,6 +670,14 @@ Section Multi.
     | Err k => Err k
     end.
 
+  (* expansion.rs expand_word (ExpansionMode::Single: assignment values, case
+     words, ...): initial expansion, ifs_join, quote removal; no splitting *)
+  Definition expand_word_single (w : word) (e : env) : res str :=
+    match expand_word true w e with
+    | Ok ph e' => Ok (remove_quotes_and_strip (ifs_join ph (ifs_var e'))) e'
+    | Err k => Err k
+    end.
+
   (* expand_words: the words of one simple command *)
   Fixpoint expand_words (ws : list word) (e : env) : res (list str) :=
     match ws with
